@@ -13,6 +13,15 @@ CHECKS = {
     note='bounded: U(1) components |t|<=B (B=2/1 quick, 3/2 thorough), tuples of <=3 charges, <=3 sectors per leg; NumPy backend; trusts TLC and the JSON trace encoding',
     technique='TLA+ spec (Charges, Legs) + TLC exhaustive model checking + trace validation of real fuse calls (I->S) + TLC-enumerated constructor cases replayed into code (S->I)'),
 }
+CHECKS['C20'] = dict(level=MC, ref='4 C20',
+    text='Lattice.tla defines every geometry as finite tables with 10 invariants (neighbour lookup = square lattice with the declared boundary, mutual inverse, '
+         'index kernel, unique sites, periods and only those, bonds NN/lattice order/fermionic order/unique classes, total order). TLC checks them on the model for '
+         'every geometry in the bound and, in TraceLattice, on the complete tables OBSERVED from every real geometry object in the same bound (constructor outcome '
+         'vs ValidPattern included). LatticeStore.tla (container + patch commit protocol) is explored exhaustively to a depth and every transition is replayed on a real fpeps.Lattice.',
+    note='bounded: SquareLattice dims<=4x4 (quick) / 5x5 (thorough) x 3 boundaries, TriangularLattice both variants (full patch <=3x3), Checkerboard, RectangularUnitcell all patterns '
+         'over 3 labels up to 2x3/3x2 (+2-label 3x3, 2x4) quick; over 4 labels up to 3x3, 2x4, 4x2 (+2-label 4x4, 3-label 3x4) thorough; window [-N,2N)^2; store depth 3/4 with 2 objects on 6 geometries. '
+         'Cylinder wrap-around bonds are exempt from fermionic ordering (impossible for any total order).',
+    technique='TLA+ spec (Lattice, LatticeStore) + TLC exhaustive model checking + trace validation of observed tables (I->S) + one implementation test per spec transition (S->I)')
 NA = {}
 m = {"version": 1, "setup_cmd": "true",
      "hooks": {"guard": "YASTN_VERIF", "enable": "no source hooks so far: the harness wraps the public API from outside and imports yastn live from /repo (override: VERIF_REPO)",
